@@ -35,6 +35,9 @@ def plan(tier, seed):
         specs.append({"klass": "table", "i": k, "exprs": chunk})
     for k in range(10):
         specs.append({"klass": "grl", "i": k})
+    for k in range(12 if tier == "quick" else 120):
+        # the batch functions generated with the documented shape option for 2-D state arrays
+        specs.append({"klass": "shape_multiple", "i": 50000 + k, "shape_opt": "multiple", "kind": ("grl", "random", "table")[k % 3], "exprs": VEC_EXPRS[(k // 3 * 7) % len(VEC_EXPRS):][:7]})
     n = 300 if tier == "quick" else 4000
     for k in range(n):
         specs.append({"klass": "random" if k % 3 else "grl", "i": 100 + k, "fill": True})
@@ -58,9 +61,9 @@ def run_case(spec, ctx):
     cn = out["counters"]
     if spec.get("text"):
         text = spec["text"]
-    elif spec["klass"] == "table":
+    elif spec["klass"] == "table" or spec.get("kind") == "table":
         text = table_model(spec["exprs"])
-    elif spec["klass"] == "grl":
+    elif spec["klass"] == "grl" or spec.get("kind") == "grl":
         text = grlmodels.gen_grl_model(rng)[0]
     else:
         text = models.gen_model(rng, Profile(), depth=rng.choice([2, 3]), n_states=rng.choice([1, 2, 3, 4])).render(rng)
@@ -88,6 +91,17 @@ def run_case(spec, ctx):
     except Exception as exc:
         out.update(status="skipped", reason="module does not load (C01)")
         return out
+    mb = m
+    if spec.get("shape_opt"):
+        from gotranx.codegen.base import Shape
+
+        ob = C.py_code(ode, schemes=sch, shape=Shape(spec["shape_opt"]), **({"stiff_states": stiff} if "hybrid_rush_larsen" in sch else {}))
+        if not ob.ok:
+            out["violations"].append({"kind": "generation_raises_with_shape_option", "detail": {"shape": spec["shape_opt"], "exc": ob.describe()[:300]}})
+            out["status"] = "violated"
+            return out
+        mb = PyModule(ob.value)
+        out["hash"] += ":" + spec["shape_opt"]
     pts, st = points.sample(ref, rng, want=24, max_draws=90)
     cn["points"] = st
     if len(pts) < 3:
@@ -122,7 +136,7 @@ def run_case(spec, ctx):
                     warnings.simplefilter("ignore")
                     try:
                         with np.errstate(all="ignore"):
-                            batch = np.asarray(m.ns[fn](*args))
+                            batch = np.asarray(mb.ns[fn](*args))
                         exc = None
                     except Exception as e:
                         exc = f"{type(e).__name__}: {e}"[:300]
